@@ -19,6 +19,34 @@ static mut LOG: [(u8, [u64; 5], u64); LOG_CAP] = [(0, [0; 5], 0); LOG_CAP];
 #[no_mangle]
 pub static mut VERIF_RSP_SLOT: u64 = 0;
 
+/// 0 = plain recorder; 1/2/3 = the helper itself runs another eBPF program (which uses its own
+/// stack and callee-saved registers) on a VM of its own, under the interpreter / JIT / Cranelift,
+/// on the calling thread - helpers that re-enter the library are legal
+pub static NESTED: std::sync::atomic::AtomicU8 = std::sync::atomic::AtomicU8::new(0);
+
+fn nested_run(mode: u8) {
+    use std::sync::OnceLock;
+    static P: OnceLock<Vec<u8>> = OnceLock::new();
+    let prog = P.get_or_init(|| {
+        let mut v = vec![];
+        v.extend(isa::lddw(6, 0x0bad_0bad_0bad_0bad));
+        v.extend(isa::lddw(7, 0x0bad_0bad_0bad_0bad));
+        v.extend(isa::lddw(8, 0x0bad_0bad_0bad_0bad));
+        v.extend(isa::lddw(9, 0x0bad_0bad_0bad_0bad));
+        for off in [-8i16, -16, -24, -256, -504, -512] {
+            v.push(isa::stxdw(10, off, 6));
+        }
+        v.push(isa::mov64i(0, 7));
+        v.push(isa::EXIT);
+        isa::enc(&v)
+    });
+    let eng = match mode { 1 => Eng::Interp, 2 => Eng::Jit, _ => Eng::Cl };
+    let mut v = AnyVm::new_plain(VmKind::NoData, Some(prog)).expect("nested load");
+    v.compile(eng).expect("nested compile");
+    let r = v.exec(eng, vm::empty_raw(), vm::empty_raw());
+    assert_eq!(r, Ok(7), "nested execution");
+}
+
 fn record(which: u8, a: [u64; 5]) -> u64 {
     let n = LOG_LEN.fetch_add(1, Ordering::Relaxed);
     let rsp = unsafe { std::ptr::read_volatile(&raw const VERIF_RSP_SLOT) };
@@ -27,6 +55,10 @@ fn record(which: u8, a: [u64; 5]) -> u64 {
         unsafe {
             LOG[n] = (which, a, rsp);
         }
+    }
+    let m = NESTED.load(Ordering::Relaxed);
+    if m != 0 {
+        nested_run(m);
     }
     ret_value(which, a)
 }
@@ -112,6 +144,10 @@ pub struct C08Case {
     pub ctx: u8,
     /// compile, bind the id to another helper, compile again: the call must reach the new one
     pub rebind: bool,
+    /// the VM object held a decoy program before (vm::set_reload): decoy 2 is 64 calls of helper 1
+    pub reload: u8,
+    /// the helper runs a nested eBPF program (NESTED)
+    pub nested: u8,
 }
 
 const SENT6: u64 = 0x6666_0000_0000_6666;
@@ -121,6 +157,28 @@ const D_R6: i16 = 8;
 const D_R7: i16 = 16;
 const D_R10: i16 = 24;
 const D_MARK: i16 = 32;
+const D_STK: i16 = 40;
+
+/// Instructions that leave something in a scratch resource of a compiler (shift count, multiply /
+/// divide operands, an address): placed where they are *adjacent in program order* to the code
+/// around the call without being executed before it (ctx = 6 + index).
+fn c08_adjacent() -> Vec<I> {
+    let mut v = vec![];
+    for k in 1..=5u8 {
+        v.push(I::new(0x6f, 0, k, 0, 0)); // lsh64 r0, rk
+    }
+    v.push(I::new(0x7c, 0, 4, 0, 0)); // rsh32 r0, r4
+    v.push(I::new(0xcf, 0, 3, 0, 0)); // arsh64 r0, r3
+    v.push(I::new(0x2f, 0, 4, 0, 0)); // mul64 r0, r4
+    v.push(I::new(0x3f, 0, 5, 0, 0)); // div64 r0, r5
+    v.push(I::new(0x9c, 0, 2, 0, 0)); // mod32 r0, r2
+    v.push(I::new(0xbf, 0, 4, 0, 0)); // mov64 r0, r4
+    v.push(I::new(0xbc, 4, 3, 0, 0)); // mov32 r4, r3
+    v.push(I::new(0x0f, 0, 1, 0, 0)); // add64 r0, r1
+    v.push(I::new(0x7b, 10, 4, -8, 0)); // stxdw [r10-8], r4
+    v.push(I::new(0xb7, 4, 0, 0, 0)); // mov64 r4, 0
+    v
+}
 
 fn c08_program(c: &C08Case, args: &[u64; 5]) -> Vec<I> {
     // r9 = packet base, r6/r7 sentinels, r8 = copy of r10 (checked by difference)
@@ -157,8 +215,17 @@ fn c08_program(c: &C08Case, args: &[u64; 5]) -> Vec<I> {
         }
         _ => {}
     }
-    for (k, a) in args.iter().enumerate() {
-        body.extend(isa::lddw(k as u8 + 1, *a));
+    // ctx >= 6 at depth >= 1: the arguments are loaded by main and pass through the local calls, so
+    // that nothing between the function's entry and the helper call writes r1-r5
+    let args_in_main = c.ctx >= 6 && c.depth > 0;
+    if args_in_main {
+        for (k, a) in args.iter().enumerate() {
+            main.extend(isa::lddw(k as u8 + 1, *a));
+        }
+    } else {
+        for (k, a) in args.iter().enumerate() {
+            body.extend(isa::lddw(k as u8 + 1, *a));
+        }
     }
     body.push(I::new(0x85, c.dstf, 0, 0, c.id as i32));
     body.push(isa::stxdw(9, D_R0, 0));
@@ -167,11 +234,22 @@ fn c08_program(c: &C08Case, args: &[u64; 5]) -> Vec<I> {
     body.push(isa::sub64r(8, 10));
     body.push(isa::stxdw(9, D_R10, 8));
     body.push(isa::stw(9, D_MARK, 0x600d));
+    if c.ctx == 5 {
+        // the stack slot written before the call: 1, atomically incremented once
+        body.push(isa::ldxdw(1, 10, -8));
+        body.push(isa::stxdw(9, D_STK, 1));
+    }
     if c.ctx == 1 {
         body.push(I::new(0x30, 0, 0, 0, 0));
     }
     let dead: Vec<I> = if c.ctx == 2 { vec![I::new(0x30, 0, 0, 0, 0), isa::EXIT] } else { vec![] };
+    let adj: Vec<I> = if c.ctx >= 6 { vec![c08_adjacent()[c.ctx as usize - 6]] } else { vec![] };
     if c.depth == 0 {
+        if !adj.is_empty() {
+            // jumped over: adjacent to the call sequence, never executed
+            main.push(isa::ja(adj.len() as i16));
+            main.extend(adj);
+        }
         main.extend(body);
         main.push(isa::mov64i(0, 0));
         main.push(isa::EXIT);
@@ -180,8 +258,9 @@ fn c08_program(c: &C08Case, args: &[u64; 5]) -> Vec<I> {
     }
     // main -> f1 -> ... -> f_depth (which contains the body); functions laid out after main
     // each intermediate function: call next ; exit
-    main.push(isa::call_local(2)); // to f1 (after mov64 r0,0 ; exit)
+    main.push(isa::call_local(2 + adj.len() as i32)); // to f1 (after mov64 r0,0 ; [adjacent] ; exit)
     main.push(isa::mov64i(0, 0));
+    main.extend(adj); // executed after the return, placed right before the first function
     main.push(isa::EXIT);
     for _ in 1..c.depth {
         main.push(isa::call_local(1));
@@ -207,8 +286,16 @@ fn c08_arg_tuples() -> Vec<[u64; 5]> {
 }
 
 fn c08_group(s: &mut Sink, eng: Eng, c: &C08Case) {
-    let rp = json!({"kind":"helper-call","eng":eng.name(),"id":c.id,"regset":c.regset,"depth":c.depth,"earlier":c.earlier,"dstf":c.dstf,"ctx":c.ctx,"rebind":c.rebind});
-    let class = format!("helper-call@depth{}{}{}", c.depth, if c.ctx > 0 { format!("+ctx{}", c.ctx) } else { String::new() }, if c.rebind { "+rebind" } else { "" });
+    let rp = json!({"kind":"helper-call","eng":eng.name(),"id":c.id,"regset":c.regset,"depth":c.depth,"earlier":c.earlier,"dstf":c.dstf,"ctx":c.ctx,"rebind":c.rebind,"reload":c.reload,"nested":c.nested});
+    let class = format!("helper-call@depth{}{}{}{}{}", c.depth, if c.ctx >= 6 { "+adjacent".to_string() } else if c.ctx > 0 { format!("+ctx{}", c.ctx) } else { String::new() }, if c.rebind { "+rebind" } else { "" }, if c.reload > 0 { "+reloaded-vm" } else { "" }, if c.nested > 0 { "+nested-vm" } else { "" });
+    NESTED.store(c.nested, Ordering::Relaxed);
+    struct NestedOff;
+    impl Drop for NestedOff {
+        fn drop(&mut self) {
+            NESTED.store(0, Ordering::Relaxed);
+        }
+    }
+    let _nested = NestedOff;
     let mut registered: Option<usize> = REG_IDS.iter().position(|x| *x == c.id).filter(|i| c.regset & (1 << i) != 0);
     let tuples = c08_arg_tuples();
     let pkt = Buf::new(64, 0);
@@ -218,7 +305,10 @@ fn c08_group(s: &mut Sink, eng: Eng, c: &C08Case) {
         s.count("evaluations", 1);
         s.count("states", 1);
         s.count("transitions", prog.len() as u64);
-        let mut vmx = match AnyVm::new(VmKind::Raw, Some(&bytes)) {
+        // reload > 0: the VM is created with a decoy program, the helpers are registered, and only
+        // then is the program under test loaded (nothing is registered after set_program)
+        let first: &[u8] = if c.reload > 0 { vm::decoy(c.reload) } else { &bytes };
+        let mut vmx = match AnyVm::new_plain(VmKind::Raw, Some(first)) {
             Ok(v) => v,
             Err(e) => {
                 s.violation(&format!("verifier/{class}/rejects-template"), e, rp.clone());
@@ -228,6 +318,12 @@ fn c08_group(s: &mut Sink, eng: Eng, c: &C08Case) {
         for (i, id) in REG_IDS.iter().enumerate() {
             if c.regset & (1 << i) != 0 {
                 vmx.register_helper(*id, stub(i)).unwrap();
+            }
+        }
+        if c.reload > 0 {
+            if let Err(e) = vmx.set_program(&bytes, (0, 0)) {
+                s.violation(&format!("verifier/{class}/rejects-template"), e, rp.clone());
+                return;
             }
         }
         log_reset();
@@ -332,6 +428,9 @@ fn c08_group(s: &mut Sink, eng: Eng, c: &C08Case) {
                 if rd(D_R10) != 0 {
                     s.violation(&format!("{}/{class}/r10-changed", eng.name()), format!("r10 moved by {} across the helper call", rd(D_R10) as i64), rp.clone());
                 }
+                if c.ctx == 5 && rd(D_STK) != 2 {
+                    s.violation(&format!("{}/{class}/stack-slot-changed", eng.name()), format!("the caller's stack slot [r10-8] held 2 before the helper call and reads {:#x} after it", rd(D_STK)), rp.clone());
+                }
                 if !pkt.canary_ok() {
                     s.violation(&format!("{}/{class}/wrote-outside-packet", eng.name()), "bytes next to the packet changed".into(), rp.clone());
                     pkt.reset_canary();
@@ -386,6 +485,7 @@ pub fn run_c08(s: &mut Sink) {
         "call_sites": "top level; inside local functions at depth 1,2,3 (interpreter, JIT); after 0,1,2 earlier helper calls",
         "arguments": "each of r1..r5 over V64 with the others distinguishable",
         "dst_field": [0, 3],
+        "context2": "an ALU / shift / multiply / divide / store instruction adjacent in program order to the function that calls (15 of them), arguments passed through the local calls; the VM object held another program before (3 decoys, one of them 64 calls of helper 1); the helper itself runs a nested eBPF program under each engine and the caller's stack slot is read back",
         "context": "with all four ids registered: ldabs after the call / in dead code, ldind before, mul+div+mod before, stack store + atomic add + lddw before; the id re-bound to another helper between two compilations",
         "engines": ["interp", "jit", "cranelift"],
     }));
@@ -414,7 +514,7 @@ pub fn run_c08(s: &mut Sink) {
                             if !thorough && dstf == 3 && (earlier > 0 || depth > 1) {
                                 continue;
                             }
-                            let c = C08Case { id, regset, depth, earlier, dstf, ctx: 0, rebind: false };
+                            let c = C08Case { id, regset, depth, earlier, dstf, ctx: 0, rebind: false, reload: 0, nested: 0 };
                             let rp = json!({"kind":"helper-call","eng":eng.name(),"id":id,"regset":regset,"depth":depth,"earlier":earlier,"dstf":dstf,"ctx":0,"rebind":false});
                             s.mark(idx, &format!("{}/helper-call@depth{depth}", eng.name()), &rp);
                             run_group(s, eng, &format!("helper-call@depth{depth}"), &rp, move |cs| c08_group(cs, eng, &c));
@@ -422,12 +522,21 @@ pub fn run_c08(s: &mut Sink) {
                     }
                     // other instructions around the call, and re-binding the id between two compilations
                     if regset == 0b1111 && REG_IDS.contains(&id) {
-                        for (ctx, rebind) in [(1u8, false), (2, false), (3, false), (4, false), (5, false), (0, true), (1, true)] {
-                            if ctx == 5 && depth > 1 {
+                        let mut variants: Vec<(u8, bool, u8, u8)> = vec![(1, false, 0, 0), (2, false, 0, 0), (3, false, 0, 0), (4, false, 0, 0), (5, false, 0, 0), (0, true, 0, 0), (1, true, 0, 0)];
+                        // the VM object held another program before; the helper re-enters the library
+                        variants.extend([(0, false, 1, 0), (0, false, 2, 0), (0, false, 3, 0), (1, true, 2, 0), (5, false, 0, 1), (5, false, 0, 2), (5, false, 0, 3), (0, false, 0, 1)]);
+                        // an instruction adjacent (in program order) to the code around the call
+                        if id == 10 || thorough {
+                            for k in 0..c08_adjacent().len() as u8 {
+                                variants.push((6 + k, false, 0, 0));
+                            }
+                        }
+                        for (ctx, rebind, reload, nested) in variants {
+                            if (ctx == 5 || ctx == 19) && depth > 1 {
                                 continue; // frames of 256 bytes: below depth 1 there is no stack left to store in
                             }
-                            let c = C08Case { id, regset, depth, earlier: 0, dstf: 0, ctx, rebind };
-                            let rp = json!({"kind":"helper-call","eng":eng.name(),"id":id,"regset":regset,"depth":depth,"earlier":0,"dstf":0,"ctx":ctx,"rebind":rebind});
+                            let c = C08Case { id, regset, depth, earlier: 0, dstf: 0, ctx, rebind, reload, nested };
+                            let rp = json!({"kind":"helper-call","eng":eng.name(),"id":id,"regset":regset,"depth":depth,"earlier":0,"dstf":0,"ctx":ctx,"rebind":rebind,"reload":reload,"nested":nested});
                             s.mark(idx, &format!("{}/helper-call@depth{depth}", eng.name()), &rp);
                             run_group(s, eng, &format!("helper-call@depth{depth}"), &rp, move |cs| c08_group(cs, eng, &c));
                         }
@@ -451,7 +560,7 @@ pub fn run_c08(s: &mut Sink) {
 
 pub fn replay_c08(v: &Value) -> Vec<String> {
     let eng = Eng::parse(v["eng"].as_str().unwrap());
-    let c = C08Case { id: v["id"].as_u64().unwrap() as u32, regset: v["regset"].as_u64().unwrap() as u8, depth: v["depth"].as_u64().unwrap() as u8, earlier: v["earlier"].as_u64().unwrap() as u8, dstf: v["dstf"].as_u64().unwrap() as u8, ctx: v["ctx"].as_u64().unwrap_or(0) as u8, rebind: v["rebind"].as_bool().unwrap_or(false) };
+    let c = C08Case { id: v["id"].as_u64().unwrap() as u32, regset: v["regset"].as_u64().unwrap() as u8, depth: v["depth"].as_u64().unwrap() as u8, earlier: v["earlier"].as_u64().unwrap() as u8, dstf: v["dstf"].as_u64().unwrap() as u8, ctx: v["ctx"].as_u64().unwrap_or(0) as u8, rebind: v["rebind"].as_bool().unwrap_or(false), reload: v["reload"].as_u64().unwrap_or(0) as u8, nested: v["nested"].as_u64().unwrap_or(0) as u8 };
     let mut s = Sink::new("replay", Tier::Quick, 0, 1, None, None, 3600);
     let rp = v.clone();
     run_group(&mut s, eng, "helper-call", &rp, move |cs| c08_group(cs, eng, &c));
@@ -501,7 +610,7 @@ pub struct C07Case {
     /// body option bits: 1 = set r6-r9 in every function, 2 = stack tag at [r10-8] written and read back,
     /// 4 = also touch the lowest slot of the frame, 8 = helper call inside every function,
     /// 16 = only the two outermost functions touch the stack (deeper frames lie below the 512 bytes
-    /// but are never accessed), 32 = r6-r9 are written by 32-bit ALU instructions only
+    /// but are never accessed), 32 = r6-r9 are written by 32-bit ALU instructions only, 64 = by wide loads (lddw) only
     pub body: u8,
     pub calc: Calc,
     pub recursive: bool,
@@ -582,6 +691,12 @@ pub fn c07_program(c: &C07Case) -> Vec<I> {
                 f.push(I::new(0xbc, 8, 4, 0, 0)); // mov32 r8, r4
                 f.push(I::new(0xb4, 9, 0, 0, 0x90 + i as i32));
                 f.push(I::new(0x04, 9, 0, 0, 1)); // add32 r9, 1
+            } else if c.body & 64 != 0 {
+                // written by wide loads only
+                f.extend(isa::lddw(6, 0x60 + i as u64));
+                f.extend(isa::lddw(7, 0x7000_0000_0070 + i as u64));
+                f.extend(isa::lddw(8, v));
+                f.extend(isa::lddw(9, 0xffff_ffff_ffff_ff90 + i as u64));
             } else {
                 f.push(isa::mov64i(6, 0x60 + i as i32));
                 f.push(isa::mov64i(7, 0x70 + i as i32));
@@ -831,6 +946,7 @@ fn c07_cases(thorough: bool) -> Vec<C07Case> {
                             }
                             if body & 8 == 0 && body & 1 != 0 {
                                 v.push(C07Case { depth, reversed, body: body | 32, calc: *calc, recursive: false, vsel, twice: depth <= 3, ld_before_call: 0, reload: 0 });
+                                v.push(C07Case { depth, reversed, body: body | 64, calc: *calc, recursive: false, vsel, twice: depth <= 3, ld_before_call: 0, reload: 0 });
                             }
                         }
                     }
